@@ -28,7 +28,7 @@ type createRegister struct {
 }
 
 func newCreateRegister() *createRegister {
-	return &createRegister{memRegister: newMemRegister(nsName, 0, cluster.PartitionReplicaInfo{}),
+	return &createRegister{memRegister: newMemRegister(nsName, 0, nil),
 		parts: map[int]cluster.PartitionReplicaInfo{}, epochs: map[int]int64{}}
 }
 func (r *createRegister) IsExistNamespace(ns string) (bool, error) { return r.created, nil }
